@@ -33,3 +33,56 @@ m("c02-step-0.1", ["C02"], "osaca/semantics/arch_semantics.py",
 m("c02-first-uop-only", ["C02"], "osaca/semantics/arch_semantics.py",
   "            for uop in instruction_form.port_uops:\n                cycles = uop[0]",
   "            for uop in instruction_form.port_uops[:1]:\n                cycles = uop[0]")
+
+# ---- C03 / C04 / C05 / C14
+m("c03-no-kill", ["C03"], "osaca/semantics/kernel_dg.py",
+  """                    # write to register -> abort
+                    if self.is_written(dst, instr_form):
+                        break
+                if isinstance(dst, FlagOperand) and flag_dependencies:""",
+  """                    # write to register -> abort
+                    if self.is_written(dst, instr_form) and False:
+                        break
+                if isinstance(dst, FlagOperand) and flag_dependencies:""")
+m("c03-index-not-read", ["C03"], "osaca/semantics/kernel_dg.py",
+  """                if src.index is not None and isinstance(src.index, RegisterOperand):
+                    is_read = self.parser.is_reg_dependend_of(register, src.index) or is_read
+        # Check also if read in destination memory address""",
+  """                if src.index is not None and isinstance(src.index, RegisterOperand):
+                    is_read = is_read
+        # Check also if read in destination memory address""")
+m("c03-hidden-swapped", ["C03"], "osaca/semantics/isa_semantics.py",
+  """                    dict_key = (
+                        "src_dst"
+                        if op.source and op.destination
+                        else "source" if op.source else "destination"
+                    )
+                else:""",
+  """                    dict_key = (
+                        "src_dst"
+                        if op.source and op.destination
+                        else "destination" if op.source else "source"
+                    )
+                else:""")
+m("c03-default-dst-x86-first", ["C03"], "osaca/semantics/isa_semantics.py",
+  """            # return last operand
+            return instruction_form.operands[-1:]""",
+  """            # return last operand
+            return instruction_form.operands[:1]""")
+m("c03-zero-idiom-reads", ["C03"], "osaca/semantics/isa_semantics.py",
+  """            op_dict["destination"] += operands
+            if isa_data.hidden_operands != []:""",
+  """            op_dict["src_dst"] += operands
+            if isa_data.hidden_operands != []:""")
+m("c03-weight-full-latency", ["C03", "C04"], "osaca/semantics/kernel_dg.py",
+  """                    if "mem_dep" in dep_flags or instruction_form.latency_wo_load is None
+                    else instruction_form.latency_wo_load""",
+  """                    if "mem_dep" in dep_flags or instruction_form.latency_wo_load is None
+                    else instruction_form.latency""")
+m("c03-writeback-weight", ["C03"], "osaca/semantics/kernel_dg.py",
+  """                    edge_weight = self.model.get("p_index_latency", 1)""",
+  """                    edge_weight = edge_weight""")
+m("c03-bp-family-dropped", ["C03", "C12"], "osaca/parser/parser_x86att.py",
+  """            "BP": ["RBP", "EBP", "BP", "BPL"],\n""", "")
+m("c03-vector-alias", ["C03", "C12"], "osaca/parser/parser_x86att.py",
+  "                if reg_a_name[1:] == reg_b_name[1:]:", "                if reg_a_name[2:] == reg_b_name[2:] and reg_a_name[0] == reg_b_name[0]:")
